@@ -819,7 +819,19 @@ func runFault(c *Case, tr *Trace) {
 			case "parse":
 				err = api.parse(exact(doc), rec)
 			case "reader":
-				_, err = api.parseReader(&chunkReader{chunks: chunksOf(exact(doc), c.Cuts)}, rec)
+				_, err = api.parseReader(&chunkReader{chunks: chunksOf(exact(doc), c.Cuts), eofWith: c.EOFWith}, rec)
+			case "decreader":
+				buf := c.Buf
+				if buf <= 0 {
+					buf = 64
+				}
+				d := api.newDecoder(&planReader{data: exact(doc), plan: c.Plan, eofWith: c.EOFWith}, buf, rec)
+				for i := 0; i < len(doc)+3 && err == nil; i++ {
+					err = d.Next()
+				}
+				if err == io.EOF {
+					err = nil
+				}
 			case "decbytes":
 				d := api.newBytesDecoder(exact(doc), rec)
 				for i := 0; i < len(doc)+3 && err == nil; i++ {
